@@ -356,11 +356,65 @@ def r5_edge_symmetry(ctx):
     ctx.check(typed, "remove_relation/only-edges-of-this-type", site_of(rr), "edges of other relationship types between the same entities are removed as well (or no type filter found)")
 
 
+def r6_tested_size_is_sent_size(ctx):
+    """The size that is tested against the client's maximum is the size of the message that is then sent: every size term of the
+    recorded message size (`body + header`: the tick fields, the optional count, the mutate index) also enters the `can_pack` tests.
+    A term left out of the test lets messages exceed the maximum by exactly that term although every chunk fits."""
+    F = ctx.F
+    ms = ctx.fn("replication_messages::mutations::Mutations::send")
+    packs = [(bb, t) for bb, t in ms.calls() if callee_decl(t).endswith("mutations::can_pack")]
+    if not ctx.check(len(packs) >= 1, "send/can_pack-tests", site_of(ms), "no can_pack test found"):
+        return
+    tr = tracer(ms)
+    recorded = []
+    for bb, i, st in ms.statements():
+        if st["s"] == "assign" and st["rvalue"]["rv"] == "agg" and st["rvalue"]["kind"] == "tuple" and len(st["rvalue"]["ops"]) == 3:
+            # (mutate_index, size, chunks_range) pushed into self.messages
+            used = False
+            for b2, t2 in ms.calls():
+                if callee_decl(t2).endswith("Vec::<T, A>::push") and any(o.kind == "stmt" and o.data == (bb, i) for o in tr.operand(t2["args"][1])):
+                    used = True
+            if used:
+                recorded.append((bb, st["rvalue"]["ops"][1]))
+    if not ctx.check(len(recorded) >= 2, "send/recorded-sizes", site_of(ms), "found %d recorded message sizes (expected the split and the final one)" % len(recorded)):
+        return
+
+    def size_terms(op):
+        terms = set()
+        for o in deep_origins(ms, op):
+            if o.kind == "call":
+                d = callee_decl(ms.blocks[o.data].term)
+                m = d.rsplit("::", 1)[-1]
+                if m in ("serialized_size", "len", "size_with_components_size", "components_size"):
+                    targ = ",".join(a_ for a_ in ms.blocks[o.data].term["callee"].get("args", []) if not a_.startswith("'"))
+                    terms.add((m, targ))
+            elif o.kind == "const" and o.data and o.data[0] in ("uneval", "val"):
+                if o.data[0] == "uneval":
+                    terms.add(("const", str(o.data[1]).rsplit("::", 1)[-1]))
+        return terms
+    rec_terms = set()
+    for bb, op in recorded:
+        rec_terms |= size_terms(op)
+    header_terms = {t_ for t_ in rec_terms if t_[0] in ("serialized_size", "len", "const")}
+    ctx.check(len(header_terms) >= 2, "send/header-terms", site_of(ms), "could not recover the header terms of the recorded size: %s" % sorted(rec_terms))
+    for bb, t in packs:
+        base = size_terms(t["args"][0]) | size_terms(t["args"][1])
+        missing = header_terms - base
+        ctx.check(not missing, ctx.nth("send/can_pack-tests-the-sent-size"), site_of(ms, bb),
+                  "the size tested against the maximum leaves out %s, which is part of the message that is sent: messages can exceed the client's maximum by that much although every "
+                  "entity (or group) fits" % sorted(missing), "tests %s" % sorted(base & header_terms))
+    # the limit is the client's maximum
+    for bb, t in packs:
+        lim = tr.operand(t["args"][2])
+        ctx.check(bool(lim) and all(o.kind == "param" for o in lim), ctx.nth("send/can_pack-limit-is-max_size"), site_of(ms, bb), "the packing limit is not the max_size parameter")
+
+
 RULES = [
     ("C10.R1", "message boundaries only between chunks; chunks are whole groups / single entities; one send per message; ack list per chunk", r1_boundaries, 12, ["default", "all-features", "server-only"]),
     ("C10.R2", "graphs rebuilt and every client's group buffers resized before changes are collected", r2_freshness, 5, ["default", "all-features", "server-only"]),
     ("C10.R3", "a mutated entity's group is graph_index of that entity", r3_group_choice, 4, ["default", "all-features", "server-only"]),
     ("C10.R4", "graph maintenance: observer wiring, dirty marking, rebuild", r4_wiring, 14, ["default", "all-features", "server-only"]),
     ("C10.R5", "removing a relation undoes every edge adding it created (parallel edges from the two add observers)", r5_edge_symmetry, 4, ["default", "all-features", "server-only"]),
+    ("C10.R6", "the size tested against the client's maximum is the size of the message that is sent (every header term enters the packing test)", r6_tested_size_is_sent_size, 6, ["default", "all-features", "server-only"]),
 ]
 THOROUGH_CONFIGS = ["default", "all-features", "server-only"]
